@@ -47,7 +47,12 @@ RULE = ('table of (forward, companion, argument generator); per row the argument
         'argument objects, backprop before forward, memory layouts, precision/dtype schedule ending with a full-tolerance '
         'double-precision call, object histories); arrays are regenerated from the per-case sub-seed in the descriptor. '
         'A case is non-trivial when input and upstream gradient have >= 2 non-zero samples and the forward response '
-        '(A x, or J d) is not identically zero; distinct = distinct descriptor')
+        '(A x, or J d) is not identically zero; distinct = distinct descriptor.  Argument forms (hardening pass 2): for every linear '
+        'companion each argument (Q, sample counts, shift incl. single-axis and zero with output_dx != 1, every physical scalar, masks '
+        'and Lyot stops in 8 dtypes, mode cubes in 8 containers, DM flags and constructor arguments, call syntax, omitted defaults '
+        'after a hostile call) is put into every accepted form in turn, the same argument objects serving a backprop, a forward and '
+        'a second backprop call; non-linear rows, costs and activations get the forms as twins of the finite-difference-validated '
+        'canonical gradient; foreign-traffic prelude before mdft / fixed-sampling / mask-and-back / DM adjoints')
 ASSUMPTIONS = [
     'inner product <a,b> = sum conj(a) b, accumulated in double precision; gradient convention fixed by the library itself '
     '(intensity_backprop returns 2*Ibar*E, i.e. dc = Re<Gbar, d>), so the backprop of a complex-linear map is its adjoint A^H',
@@ -71,6 +76,11 @@ ASSUMPTIONS = [
     'than 1e-4 relative is excluded and counted (the twin would then be the gradient of another function)',
     'a used object and a brand-new one (same constructor arguments, same call) must agree to round-off because the '
     'routines are deterministic; 1e-11 relative is allowed for re-association',
+    'argument forms (FORMS_NOTE): a form is demanded only when the current tree accepts it as the same input (forms that raise or mean '
+    'something else are listed there); forms that carry float32 numbers use values exactly representable in float32 and the single-'
+    'precision tolerance; a DM backprop belongs to the render that preceded it (forward first for DM forms); for narrow-integer data '
+    'the cost a routine returns may differ from the float-data cost (numpy integer arithmetic): the form twin is then skipped and '
+    'counted and the gradient is judged against the cost actually returned',
 ]
 REQUIRED = []          # filled from the table below
 UNREACHABLE = ['focal-plane masks / Lyot stops given as Wavefront objects: the forward routine itself raises TypeError '
@@ -1874,6 +1884,868 @@ def gen_f32(ctx, rng):
         yield cls, desc, build
 
 
+# ============================================================================================ hardening pass 2: argument forms
+# Class E (HARDENING2.md).  Every companion is called with each argument in every form the current tree accepts as the same
+# mathematical input (pair / scalar / sample-count forms of vp.propforms; established by running /repo @ faa8443, see FORMS_NOTE),
+# the other arguments canonical; the adjoint law is judged between the companion in that form and the forward in canonical form
+# *and* in the same form, on the same argument objects (a container the routine rescales in place breaks the second pairing),
+# and once more on a repeat call.  Keys: C06/<companion>/form:<argument>=<form>.
+FORMS_NOTE = ('forms out of domain on the current tree (raise, or mean something else): a bare scalar shift for the fixed-sampling / '
+              'mask-and-back wrappers (they index shift[0], shift[1]); cost masks that are not boolean arrays (integer arrays are taken '
+              'as indices, float / complex raise); unsigned-integer targets of negative_loglikelihood (numpy unsigned arithmetic); '
+              'integer mode cubes (sum_of_2d_modes truncates); integer-typed inputs of Arctan.backprop (it scales x - x0 in place by a float: '
+              'UFuncTypeError when x0 is an int) and unsigned-integer inputs of the other activations (python-int constants do not fit: '
+              'OverflowError); lists for fields, upstream gradients and activation inputs; Wavefront / '
+              'RichData objects for intensity_backprop; numpy integers for the Nout / Nact / sep arguments of DM (isinstance(.., int) fails, the '
+              'scalar is then indexed)')
+
+
+def _pf():
+    from .. import propforms
+    return propforms
+
+
+def _form_lin(row, fwd_of, bwd_of, xshape, yshape, forms, xkind='c', ykind='c', pre=None, exact32=False, forward_first=False):
+    """A tagged linear case: tag 'base' = canonical call, one tag per (label, single) in `forms`.  fwd_of(label), bwd_of(label)
+    return the callables of that form (label 'base' for the canonical one); `pre`: hostile call made before the forms."""
+    R = KEY_ROUTINE.get(row, row)
+    tags = {'base': Tag('base')}
+    plan = [('f', 0, 'base'), ('b', 0, 'base')]
+    if pre is not None:
+        plan.append(('do', pre))
+    for label, single in forms:
+        tags[label] = Tag(label, ref='base', key=f'C06/{R}/form:{label}', mon='form', rtol=RT_F32 if single else RT_LIN)
+        plan += [('f', 0, label), ('b', 0, label), ('b', 1, label)] if forward_first else [('b', 0, label), ('f', 0, label), ('b', 1, label)]
+    cache = {}
+
+    def fwd(x, t):
+        if ('f', t) not in cache:
+            cache[('f', t)] = fwd_of(t)
+        return cache[('f', t)](x)
+
+    def bwd(y, t):
+        if ('b', t) not in cache:
+            cache[('b', t)] = bwd_of(t)
+        return cache[('b', t)](y)
+    return Lin(fwd, bwd, xshape, yshape, xkind=xkind, ykind=ykind, plan=plan, tags=tags, tagged=True, exact32=exact32)
+
+
+def _arg_forms(role, value):
+    """[(label, factory, single)] of one argument value."""
+    pf = _pf()
+    if role == 'pair':
+        return pf.pair_forms(value)
+    if role == 'samples':
+        return pf.samples_forms(value)
+    return pf.scalar_forms(value)
+
+
+FORM_VALUE_CLASSES = ['generic', 'integral', 'equal', 'single-axis-x', 'single-axis-y', 'zero']
+
+
+def _pair_value(rng, cls, unit=1.0):
+    """A pair whose members are exactly representable in float32 (so that the float32 forms exist)."""
+    q = lambda v: float(np.round(v * 8) / 8) * unit      # noqa: E731
+    if cls == 'generic':
+        return (q(rng.uniform(0.5, 3)) or unit, -q(rng.uniform(0.25, 3)) or -unit)
+    if cls == 'integral':
+        return (float(rng.integers(1, 4)) * unit, -float(rng.integers(1, 4)) * unit)
+    if cls == 'equal':
+        v = q(rng.uniform(0.5, 3)) or unit
+        return (v, v)
+    if cls == 'single-axis-x':
+        return (q(rng.uniform(0.5, 3)) or unit, 0.0)
+    if cls == 'single-axis-y':
+        return (0.0, q(rng.uniform(0.5, 3)) or unit)
+    return (0.0, 0.0)
+
+
+def gen_forms_mdft(ctx, rng, which):
+    from prysm.fttools import mdft
+    row = 'mdft.' + which + '_backprop'
+    sname = 'samples_in' if which == 'dft2' else 'samples_out'
+    k = -1
+    for rep in range(ctx.pick(1, 12)):
+        for arg in ('Q', sname, 'shift', 'call'):
+            for vc in FORM_VALUE_CLASSES:
+                k += 1
+                if not ctx.mine(k):
+                    continue
+                if arg in (sname, 'call') and vc not in ('generic', 'equal', 'zero'):
+                    continue
+                sq = vc == 'equal'
+                sa = (5, 5) if sq else _rand_shape(rng, 'nonsq', 3, 9)
+                sb = (6, 6) if sq else _rand_shape(rng, ['sq', 'nonsq'][int(rng.integers(2))], 3, 9)
+                Qv = _pair_value(rng, vc if arg == 'Q' and vc != 'zero' and not vc.startswith('single') else 'generic')
+                Qv = (abs(Qv[0]) + 0.5, abs(Qv[1]) + 0.5)
+                if arg == 'Q' and vc == 'equal':
+                    Qv = (Qv[0], Qv[0])
+                if arg == 'Q' and vc == 'integral':
+                    Qv = (float(int(Qv[0]) + 1), float(int(Qv[1]) + 1))
+                sh = _pair_value(rng, vc if arg in ('shift', 'call') else ['generic', 'zero', 'single-axis-x'][k % 3])
+                xk = 'r' if k % 5 == 0 else 'c'
+                cls = f'form:{arg}'
+                desc = {'in': sa, 'out': sb, 'Q': Qv, 'shift': sh, 'argument': arg, 'values': vc, 'x': xk, 'variant': 'forms', 'sub': _subseed(rng)}
+
+                def build(r_, sa=sa, sb=sb, Qv=Qv, sh=sh, arg=arg, xk=xk):
+                    fw, bw = getattr(mdft, which), getattr(mdft, which + '_backprop')
+                    canon = {'Q': Qv, 'so': sb, 'si': sa, 'shift': sh}
+                    forms, table = [], {'base': canon}
+                    if arg == 'call':
+                        styles = ['keywords', 'positional'] + (['shift-omitted'] if not nz(sh) else [])
+                        forms = [(f'call={s}', False) for s in styles]
+                        for s in styles:
+                            table[f'call={s}'] = dict(canon, style=s)
+                    else:
+                        role = {'Q': 'pair', 'shift': 'pair'}.get(arg, 'samples')
+                        val = {'Q': Qv, 'shift': sh}.get(arg, None)
+                        for j, side in enumerate(('so', 'si') if role == 'samples' else (arg,)):
+                            v = canon[side] if role == 'samples' else val
+                            for label, make, single in _arg_forms(role, v):
+                                lab = f'{arg}={label}'
+                                forms.append((lab, single)) if j == 0 else None
+                                table.setdefault(lab, dict(canon))
+                                table[lab][side] = make()
+                        forms = [(l_, s_) for l_, s_ in forms if all(k_ in table[l_] for k_ in canon)]
+                        if role == 'samples':     # the forward's and the backprop's sample-count arguments take the form together
+                            forms = [(l_, s_) for l_, s_ in forms if l_.split('=', 1)[1] in
+                                     {lb for lb, _, _ in _arg_forms('samples', sb)} & {lb for lb, _, _ in _arg_forms('samples', sa)}]
+
+                    def fwd_of(t):
+                        a = table[t]
+                        st = a.get('style')
+                        if st == 'keywords':
+                            return lambda x: fw(ary=x, Q=a['Q'], samples_out=a['so'], shift=a['shift'])
+                        if st == 'shift-omitted':
+                            return lambda x: fw(x, a['Q'], a['so'])
+                        return lambda x: fw(x, a['Q'], a['so'], a['shift'])
+
+                    def bwd_of(t):
+                        a = table[t]
+                        st = a.get('style')
+                        if st == 'keywords':
+                            return lambda y: bw(fbar=y, Q=a['Q'], shift=a['shift'], **{sname: a['si']})
+                        if st == 'shift-omitted':
+                            return lambda y: bw(y, a['Q'], a['si'])
+                        return lambda y: bw(y, a['Q'], a['si'], a['shift'])
+
+                    def hostile():      # other explicit values right before the forms (a default resolved from state shows here)
+                        bw(np.ones(sb, dtype=complex), 1.25, sa, np.array([1.5, -0.75]))
+                        fw(np.ones(sa, dtype=complex), 1.25, sb, [0.5, 0.25])
+                    if not forms:
+                        return None
+                    return _form_lin(row, fwd_of, bwd_of, sa, sb, forms, xkind=xk, pre=hostile)
+                yield cls, desc, build
+
+
+def _geom_f32(rng, pupil):
+    """Physical parameters exactly representable in float32, Q in [1, 4]."""
+    dx = [0.125, 0.25, 0.0625, 0.5][int(rng.integers(4))]
+    wvl = [0.5, 0.75, 1.0, 1.5][int(rng.integers(4))]
+    efl = float(rng.integers(4, 40)) * 8.0
+    Q = float(rng.uniform(1, 4))
+    fdx = wvl * efl / (pupil[0] * dx) / Q
+    fdx = float(np.float32(np.round(fdx * 64) / 64)) or 1 / 64
+    return dx, wvl, efl, fdx
+
+
+def gen_forms_ffs(ctx, rng, which, form):
+    from prysm import propagation as P
+    row = {('focus', 'function'): 'focus_fixed_sampling_backprop', ('focus', 'Wavefront'): 'Wavefront.focus_fixed_sampling_backprop',
+           ('unfocus', 'function'): 'unfocus_fixed_sampling_backprop'}[(which, form)]
+    args = ['input_dx', 'prop_dist', 'wavelength', 'output_dx', 'output_samples', 'shift', 'call']
+    k = -1
+    for rep in range(ctx.pick(1, 12)):
+        for arg in args:
+            for vc in FORM_VALUE_CLASSES:
+                k += 1
+                if not ctx.mine(k):
+                    continue
+                if arg not in ('shift', 'call') and vc not in ('generic', 'equal'):
+                    continue
+                if arg == 'call' and vc not in ('generic', 'zero', 'single-axis-x'):
+                    continue
+                sq = vc == 'equal' or k % 3 == 0
+                pupil = (5, 5) if sq else _rand_shape(rng, 'nonsq', 3, 9)
+                focal = (6, 6) if sq else _rand_shape(rng, ['sq', 'nonsq'][int(rng.integers(2))], 3, 10)
+                dx, wvl, efl, fdx = _geom_f32(rng, pupil)
+                unit = fdx if which == 'focus' else dx                 # shift is in the units of output_dx (never 1 here)
+                sh = _pair_value(rng, vc if arg in ('shift', 'call') else ['generic', 'single-axis-y', 'zero'][k % 3], unit=unit)
+                cls = f'form:{arg}'
+                desc = {'pupil': pupil, 'focal': focal, 'dx': dx, 'wvl': wvl, 'efl': efl, 'fdx': fdx, 'shift': sh, 'argument': arg,
+                        'values': vc, 'form': form, 'variant': 'forms', 'sub': _subseed(rng)}
+
+                def build(r_, pupil=pupil, focal=focal, dx=dx, wvl=wvl, efl=efl, fdx=fdx, sh=sh, arg=arg):
+                    # forward side names: (input_dx, prop_dist, wavelength, output_dx, output_samples); the backprop gets the same
+                    # physical arguments and the shape of the forward input as output_samples
+                    if which == 'focus':
+                        canon = {'input_dx': dx, 'prop_dist': efl, 'wavelength': wvl, 'output_dx': fdx, 'fs': focal, 'bs': pupil, 'shift': sh}
+                        xs, ys = pupil, focal
+                    else:
+                        canon = {'input_dx': fdx, 'prop_dist': efl, 'wavelength': wvl, 'output_dx': dx, 'fs': pupil, 'bs': focal, 'shift': sh}
+                        xs, ys = focal, pupil
+                    table, forms = {'base': canon}, []
+                    if arg == 'call':
+                        styles = ['keywords', 'positional', 'method-explicit'] + (['shift-omitted'] if not nz(sh) else [])
+                        forms = [(f'call={s}', False) for s in styles]
+                        for s in styles:
+                            table[f'call={s}'] = dict(canon, style=s)
+                    elif arg == 'output_samples':
+                        common = {lb for lb, _, _ in _arg_forms('samples', canon['fs'])} & {lb for lb, _, _ in _arg_forms('samples', canon['bs'])}
+                        for side in ('fs', 'bs'):
+                            for label, make, single in _arg_forms('samples', canon[side]):
+                                if label in common:
+                                    lab = f'{arg}={label}'
+                                    table.setdefault(lab, dict(canon))[side] = make()
+                                    if side == 'fs':
+                                        forms.append((lab, single))
+                    else:
+                        role = 'pair' if arg == 'shift' else 'scalar'
+                        for label, make, single in _arg_forms(role, canon[arg]):
+                            if role == 'pair' and 'scalar' in label and 'scalars' not in label:
+                                continue          # a bare scalar is not a shift for these wrappers (FORMS_NOTE)
+                            lab = f'{arg}={label}'
+                            table[lab] = dict(canon, **{arg: make()})
+                            forms.append((lab, single))
+
+                    def call(fn, arr, a, samples, wf_space=None):
+                        st = a.get('style')
+                        if form == 'Wavefront':
+                            w = P.Wavefront(arr, a['wavelength'], a['input_dx'], wf_space)
+                            m = getattr(w, fn)
+                            if st == 'keywords':
+                                return m(efl=a['prop_dist'], dx=a['output_dx'], samples=samples, shift=a['shift'], method='mdft').data
+                            if st == 'positional':
+                                return m(a['prop_dist'], a['output_dx'], samples, a['shift'], 'mdft').data
+                            if st == 'shift-omitted':
+                                return m(a['prop_dist'], a['output_dx'], samples).data
+                            if st == 'method-explicit':
+                                return m(a['prop_dist'], a['output_dx'], samples, shift=a['shift'], method='mdft').data
+                            return m(a['prop_dist'], a['output_dx'], samples, shift=a['shift']).data
+                        f = getattr(P, fn)
+                        if st == 'keywords':
+                            return f(wavefunction=arr, input_dx=a['input_dx'], prop_dist=a['prop_dist'], wavelength=a['wavelength'],
+                                     output_dx=a['output_dx'], output_samples=samples, shift=a['shift'], method='mdft')
+                        if st == 'positional':
+                            return f(arr, a['input_dx'], a['prop_dist'], a['wavelength'], a['output_dx'], samples, a['shift'], 'mdft')
+                        if st == 'shift-omitted':
+                            return f(arr, a['input_dx'], a['prop_dist'], a['wavelength'], a['output_dx'], samples)
+                        if st == 'method-explicit':
+                            return f(arr, a['input_dx'], a['prop_dist'], a['wavelength'], a['output_dx'], samples, shift=a['shift'], method='mdft')
+                        return f(arr, a['input_dx'], a['prop_dist'], a['wavelength'], a['output_dx'], samples, shift=a['shift'])
+                    fname = which + '_fixed_sampling'
+
+                    def fwd_of(t):
+                        a = table[t]
+                        return lambda x: call(fname, x, a, a['fs'], 'pupil' if which == 'focus' else 'psf')
+
+                    def bwd_of(t):
+                        a = table[t]
+                        if form == 'Wavefront':
+                            # the gradient lives in the output plane of the forward: its Wavefront carries output_dx, and the method
+                            # is given the forward's input spacing
+                            b = dict(a, input_dx=a['output_dx'], output_dx=a['input_dx'])
+                            return lambda y: call(fname + '_backprop', y, b, a['bs'], 'psf' if which == 'focus' else 'pupil')
+                        return lambda y: call(fname + '_backprop', y, a, a['bs'])
+
+                    def hostile():
+                        a = canon
+                        getattr(P, fname)(np.ones(xs, dtype=complex), a['input_dx'], a['prop_dist'], a['wavelength'], a['output_dx'], a['fs'],
+                                          shift=np.array([1.5, -0.5]) * a['output_dx'], method='czt')
+                        getattr(P, fname + '_backprop')(np.ones(ys, dtype=complex), a['input_dx'], a['prop_dist'], a['wavelength'], a['output_dx'],
+                                                        a['bs'], shift=[0.5 * a['output_dx'], 2 * a['output_dx']])
+                    if not forms:
+                        return None
+                    return _form_lin(row, fwd_of, bwd_of, xs, ys, forms, pre=hostile)
+                yield cls, desc, build
+
+
+MASK_FORMS = ['bool', 'uint8', 'int32', 'int64', 'float32', 'float64', 'complex64', 'complex128']
+
+
+def _mask_forms(m):
+    """[(label, array, single)] of one mask: every dtype that holds its values exactly (float32 / complex64 forms carry rounded
+    values and are judged at single-precision tolerance against the canonical map of the *rounded* mask, so they are only offered
+    for masks that are exact in float32)."""
+    out = []
+    binary = m.dtype.kind != 'c' and bool(np.all((m == 0) | (m == 1)))
+    for lab in MASK_FORMS:
+        dt = np.dtype(lab)
+        if dt.kind in 'biu' and not binary:
+            continue
+        if dt.kind == 'f' and m.dtype.kind == 'c':
+            continue
+        if dt == m.dtype:
+            continue
+        out.append((lab, m.astype(dt), False))
+    return out
+
+
+def gen_forms_tfb(ctx, rng, form):
+    from prysm import propagation as P
+    row = 'to_fpm_and_back_backprop' if form == 'function' else 'Wavefront.to_fpm_and_back_backprop'
+    args = ['dx', 'wavelength', 'efl', 'fpm_dx', 'shift', 'fpm', 'call']
+    k = -1
+    for rep in range(ctx.pick(1, 12)):
+        for arg in args:
+            for vc in FORM_VALUE_CLASSES:
+                k += 1
+                if not ctx.mine(k):
+                    continue
+                if arg not in ('shift', 'call') and vc not in ('generic', 'equal', 'zero'):
+                    continue
+                if arg == 'call' and vc not in ('generic', 'zero'):
+                    continue
+                pupil = (5, 5) if k % 2 else _rand_shape(rng, 'nonsq', 3, 8)
+                ms = pupil if k % 4 < 2 else _rand_shape(rng, ['sq', 'nonsq'][int(rng.integers(2))], 3, 9)
+                dx, wvl, efl, fdx = _geom_f32(rng, pupil)
+                sh = _pair_value(rng, vc if arg in ('shift', 'call') else ['generic', 'single-axis-x', 'zero'][k % 3], unit=fdx)
+                mk = ['binary', 'grey', 'complex'][(k // 7) % 3]
+                cls = f'form:{arg}'
+                desc = {'pupil': pupil, 'mask': ms, 'mask_kind': mk, 'dx': dx, 'wvl': wvl, 'efl': efl, 'fdx': fdx, 'shift': sh, 'argument': arg,
+                        'values': vc, 'form': form, 'variant': 'forms', 'sub': _subseed(rng)}
+
+                def build(r_, pupil=pupil, ms=ms, mk=mk, dx=dx, wvl=wvl, efl=efl, fdx=fdx, sh=sh, arg=arg):
+                    m = r_.uniform(0, 1, ms)
+                    if mk == 'binary':
+                        m = (m > 0.4).astype(np.float64)
+                        if m.sum() < 2:
+                            m[...] = 1.0
+                    elif mk == 'grey':
+                        m = f32_exact(m)
+                    else:
+                        m = f32_exact(m * np.exp(1j * r_.uniform(-3, 3, ms)))
+                    canon = {'dx': dx, 'wavelength': wvl, 'efl': efl, 'fpm': m, 'fpm_dx': fdx, 'shift': sh}
+                    table, forms = {'base': canon}, []
+                    if arg == 'call':
+                        styles = ['keywords', 'positional', 'method-explicit', 'return_more=True', 'return_more=1'] + \
+                                 (['shift-omitted'] if not nz(sh) else [])
+                        for s in styles:
+                            table[f'call={s}'] = dict(canon, style=s)
+                            forms.append((f'call={s}', False))
+                    elif arg == 'fpm':
+                        for lab, arr, single in _mask_forms(m):
+                            narrow = lab in ('float32', 'complex64')
+                            table[f'fpm={lab}'] = dict(canon, fpm=arr)
+                            forms.append((f'fpm={lab}', narrow))
+                        for lab, arr in (('F-order', np.asfortranarray(m)), ('read-only', None)):
+                            if arr is None:
+                                arr = m.copy()
+                                arr.setflags(write=False)
+                            table[f'fpm={lab}'] = dict(canon, fpm=arr)
+                            forms.append((f'fpm={lab}', False))
+                    else:
+                        role = 'pair' if arg == 'shift' else 'scalar'
+                        for label, make, single in _arg_forms(role, canon[arg]):
+                            if role == 'pair' and 'scalar' in label and 'scalars' not in label:
+                                continue
+                            table[f'{arg}={label}'] = dict(canon, **{arg: make()})
+                            forms.append((f'{arg}={label}', single))
+
+                    def first(v, a):
+                        return v[0] if str(a.get('style', '')).startswith('return_more') else v
+
+                    def fwd_of(t):
+                        a = table[t]
+                        st = a.get('style')
+                        more = {'return_more=True': True, 'return_more=1': 1}.get(st, False)
+                        if form == 'function':
+                            if st == 'keywords':
+                                return lambda x: P.to_fpm_and_back(wavefunction=x, dx=a['dx'], efl=a['efl'], wavelength=a['wavelength'], fpm=a['fpm'],
+                                                                   fpm_dx=a['fpm_dx'], shift=a['shift'], method='mdft', return_more=False)
+                            if st == 'positional':
+                                return lambda x: P.to_fpm_and_back(x, a['dx'], a['efl'], a['wavelength'], a['fpm'], a['fpm_dx'], a['shift'], 'mdft', False)
+                            if st == 'shift-omitted':
+                                return lambda x: P.to_fpm_and_back(x, a['dx'], a['efl'], a['wavelength'], a['fpm'], a['fpm_dx'])
+                            return lambda x: first(P.to_fpm_and_back(x, a['dx'], a['efl'], a['wavelength'], a['fpm'], a['fpm_dx'], shift=a['shift'],
+                                                                     return_more=more, **({'method': 'mdft'} if st == 'method-explicit' else {})), a)
+
+                        def wf(x):
+                            w = P.Wavefront(x, a['wavelength'], a['dx'])
+                            if st == 'keywords':
+                                return w.to_fpm_and_back(efl=a['efl'], fpm=a['fpm'], fpm_dx=a['fpm_dx'], method='mdft', shift=a['shift'], return_more=False).data
+                            if st == 'positional':
+                                return w.to_fpm_and_back(a['efl'], a['fpm'], a['fpm_dx'], 'mdft', a['shift'], False).data
+                            if st == 'shift-omitted':
+                                return w.to_fpm_and_back(a['efl'], a['fpm'], a['fpm_dx']).data
+                            return first(w.to_fpm_and_back(a['efl'], a['fpm'], a['fpm_dx'], shift=a['shift'], return_more=more), a).data
+                        return wf
+
+                    def bwd_of(t):
+                        a = table[t]
+                        st = a.get('style')
+                        more = {'return_more=True': True, 'return_more=1': 1}.get(st, False)
+                        if form == 'function':
+                            if st == 'keywords':
+                                return lambda y: P.to_fpm_and_back_backprop(wavefunction=y, dx=a['dx'], wavelength=a['wavelength'], efl=a['efl'], fpm=a['fpm'],
+                                                                            fpm_dx=a['fpm_dx'], method='mdft', shift=a['shift'], return_more=False)
+                            if st == 'positional':
+                                return lambda y: P.to_fpm_and_back_backprop(y, a['dx'], a['wavelength'], a['efl'], a['fpm'], a['fpm_dx'], 'mdft', a['shift'], False)
+                            if st == 'shift-omitted':
+                                return lambda y: P.to_fpm_and_back_backprop(y, a['dx'], a['wavelength'], a['efl'], a['fpm'], a['fpm_dx'])
+                            return lambda y: first(P.to_fpm_and_back_backprop(y, a['dx'], a['wavelength'], a['efl'], a['fpm'], a['fpm_dx'], shift=a['shift'],
+                                                                              return_more=more, **({'method': 'mdft'} if st == 'method-explicit' else {})), a)
+
+                        def wb(y):
+                            w = P.Wavefront(y, a['wavelength'], a['dx'])
+                            if st == 'keywords':
+                                return w.to_fpm_and_back_backprop(efl=a['efl'], fpm=a['fpm'], fpm_dx=a['fpm_dx'], method='mdft', shift=a['shift'],
+                                                                  return_more=False).data
+                            if st == 'positional':
+                                return w.to_fpm_and_back_backprop(a['efl'], a['fpm'], a['fpm_dx'], 'mdft', a['shift'], False).data
+                            if st == 'shift-omitted':
+                                return w.to_fpm_and_back_backprop(a['efl'], a['fpm'], a['fpm_dx']).data
+                            return first(w.to_fpm_and_back_backprop(a['efl'], a['fpm'], a['fpm_dx'], shift=a['shift'], return_more=more), a).data
+                        return wb
+
+                    def hostile():
+                        P.to_fpm_and_back(np.ones(pupil, dtype=complex), dx, efl, wvl, np.ones(ms), fdx, shift=np.array([1.5, -0.5]) * fdx, return_more=True)
+                        P.to_fpm_and_back_backprop(np.ones(pupil, dtype=complex), dx, wvl, efl, np.ones(ms), fdx, shift=[0.5 * fdx, fdx], return_more=True)
+                    if not forms:
+                        return None
+                    return _form_lin(row, fwd_of, bwd_of, pupil, pupil, forms, pre=hostile)
+                yield cls, desc, build
+
+
+def gen_forms_babinet(ctx, rng):
+    from prysm import propagation as P
+    row = 'Wavefront.babinet_backprop'
+    k = -1
+    for rep in range(ctx.pick(2, 24)):
+        for arg in ('fpm', 'lyot', 'efl', 'fpm_dx', 'call'):
+            for mk in ('binary', 'grey', 'complex'):
+                k += 1
+                if not ctx.mine(k):
+                    continue
+                pupil = (5, 5) if k % 2 else _rand_shape(rng, 'nonsq', 3, 8)
+                ms = pupil if k % 4 < 2 else _rand_shape(rng, ['sq', 'nonsq'][int(rng.integers(2))], 3, 9)
+                dx, wvl, efl, fdx = _geom_f32(rng, pupil)
+                lk = ['none', 'binary', 'grey', 'complex'][(k // 3) % 4] if arg != 'lyot' else mk
+                cls = f'form:{arg}'
+                desc = {'pupil': pupil, 'mask': ms, 'mask_kind': mk, 'lyot': lk, 'dx': dx, 'wvl': wvl, 'efl': efl, 'fdx': fdx, 'argument': arg,
+                        'variant': 'forms', 'sub': _subseed(rng)}
+
+                def build(r_, pupil=pupil, ms=ms, mk=mk, lk=lk, dx=dx, wvl=wvl, efl=efl, fdx=fdx, arg=arg):
+                    def mk_mask(kind, shape):
+                        m = r_.uniform(0, 1, shape)
+                        if kind == 'binary':
+                            m = (m > 0.4).astype(np.float64)
+                            if m.sum() < 2:
+                                m[...] = 1.0
+                            return m
+                        return f32_exact(m) if kind == 'grey' else f32_exact(m * np.exp(1j * r_.uniform(-3, 3, shape)))
+                    canon = {'efl': efl, 'lyot': None if lk == 'none' else mk_mask(lk, pupil), 'fpm': mk_mask(mk, ms), 'fpm_dx': fdx}
+                    table, forms = {'base': canon}, []
+                    if arg == 'call':
+                        for s in ('keywords', 'positional', 'method-explicit'):
+                            table[f'call={s}'] = dict(canon, style=s)
+                            forms.append((f'call={s}', False))
+                    elif arg in ('fpm', 'lyot'):
+                        for lab, arr, _ in _mask_forms(canon[arg]):
+                            table[f'{arg}={lab}'] = dict(canon, **{arg: arr})
+                            forms.append((f'{arg}={lab}', lab in ('float32', 'complex64')))
+                    else:
+                        for label, make, single in _arg_forms('scalar', canon[arg]):
+                            table[f'{arg}={label}'] = dict(canon, **{arg: make()})
+                            forms.append((f'{arg}={label}', single))
+
+                    def of(meth):
+                        def make(t):
+                            a = table[t]
+                            st = a.get('style')
+
+                            def run(x):
+                                m = getattr(P.Wavefront(x, wvl, dx), meth)
+                                if st == 'keywords':
+                                    return m(efl=a['efl'], lyot=a['lyot'], fpm=a['fpm'], fpm_dx=a['fpm_dx'], method='mdft').data
+                                if st == 'positional':
+                                    return m(a['efl'], a['lyot'], a['fpm'], a['fpm_dx'], 'mdft').data
+                                if st == 'method-explicit':
+                                    return m(a['efl'], a['lyot'], a['fpm'], a['fpm_dx'], method='mdft').data
+                                return m(a['efl'], a['lyot'], a['fpm'], a['fpm_dx']).data
+                            return run
+                        return make
+                    if not forms:
+                        return None
+                    return _form_lin(row, of('babinet'), of('babinet_backprop'), pupil, pupil, forms)
+                yield cls, desc, build
+
+
+def gen_forms_modes(ctx, rng):
+    from prysm import polynomials
+    row = 'sum_of_2d_modes_backprop'
+    k = -1
+    for rep in range(ctx.pick(4, 60)):
+        for gk in ('r', 'c'):
+            k += 1
+            if not ctx.mine(k):
+                continue
+            shape = _rand_shape(rng, ['sq', 'nonsq', 'line'][k % 3], 2, 9)
+            K = [1, 2, 3, 5][k % 4]
+            cls = 'form:modes'
+            desc = {'shape': shape, 'K': K, 'databar': gk, 'variant': 'forms', 'sub': _subseed(rng)}
+
+            def build(r_, shape=shape, K=K, gk=gk):
+                modes = f32_exact(r_.standard_normal((K,) + shape))
+                ro = modes.copy()
+                ro.setflags(write=False)
+                table = {'base': modes, 'modes=tuple': tuple(modes), 'modes=list': list(modes), 'modes=list-of-copies': [m.copy() for m in modes],
+                         'modes=float32 ndarray': modes.astype(np.float32), 'modes=list of float32': [m.astype(np.float32) for m in modes],
+                         'modes=nested list': modes.tolist(), 'modes=read-only': ro, 'modes=F-order': np.asfortranarray(modes)}
+                forms = [(lab, 'float32' in lab) for lab in table if lab != 'base']
+                forms += [('weights,databar=float32', True), ('call=keywords', False)]
+                table['weights,databar=float32'] = modes
+                table['call=keywords'] = modes
+                keep = modes.copy()
+
+                def fwd_of(t):
+                    mm = table[t]
+                    if t == 'weights,databar=float32':
+                        return lambda w: polynomials.sum_of_2d_modes(mm, cast(w, 'f32'))
+                    if t == 'call=keywords':
+                        return lambda w: polynomials.sum_of_2d_modes(modes=mm, weights=w)
+                    return lambda w: polynomials.sum_of_2d_modes(mm, w)
+
+                def bwd_of(t):
+                    mm = table[t]
+                    if t == 'weights,databar=float32':
+                        return lambda g: polynomials.sum_of_2d_modes_backprop(mm, cast(g, 'f32'))
+                    if t == 'call=keywords':
+                        return lambda g: polynomials.sum_of_2d_modes_backprop(modes=mm, databar=g)
+                    return lambda g: polynomials.sum_of_2d_modes_backprop(mm, g)
+                c = _form_lin(row, fwd_of, bwd_of, (K,), shape, forms, xkind='r', ykind=gk, exact32=True)
+
+                def unchanged():
+                    if not same(modes, keep):
+                        ctx.event(f'argument-modified-in-place:{row}:modes')
+                c.plan.append(('do', unchanged))
+                return c
+            yield cls, desc, build
+
+
+def gen_forms_dm(ctx, rng):
+    """DM.render_backprop: the wfe flag in every form, and a DM built from other forms of its constructor arguments."""
+    from prysm.x.dm import DM
+    row = 'DM.render_backprop'
+    k = -1
+    for rep in range(ctx.pick(2, 30)):
+        for arg in ('wfe', 'ctor'):
+            for wfe in (True, False):
+                k += 1
+                if not ctx.mine(k):
+                    continue
+                N = int(rng.integers(12, 20)) * 2
+                Nact, sep = [4, 3, 5][k % 3], [3, 4][k % 2]
+                if (Nact // 2 + 1) * sep + sep // 2 >= N // 2:
+                    sep = 3
+                shift = (0, 0) if k % 3 == 0 else _pair_value(rng, ['generic', 'integral', 'single-axis-x'][k % 3])
+                dN = [0, 6, -6][(k // 2) % 3]
+                sigma = float(np.round(rng.uniform(1.0, 2.0), 2))
+                cls = f'form:{arg}'
+                desc = {'N': N, 'Nact': Nact, 'sep': sep, 'shift': shift, 'Nout': N + dN, 'wfe': wfe, 'sigma': sigma, 'argument': arg,
+                        'variant': 'forms', 'sub': _subseed(rng)}
+
+                def build(r_, N=N, Nact=Nact, sep=sep, shift=shift, dN=dN, sigma=sigma, wfe=wfe, arg=arg):
+                    ifn = _dm_ifn(N, sigma)
+                    Nout = N + dN
+
+                    def new_dm(**kw):
+                        a = dict(ifn=ifn, Nout=Nout, Nact=Nact, sep=sep, shift=shift)
+                        a.update(kw)
+                        with warnings.catch_warnings():
+                            warnings.simplefilter('ignore')
+                            return DM(**a)
+                    dm0 = new_dm()
+                    ashape, oshape = dm0.actuators.shape, dm0.render(wfe=wfe).shape
+                    dms, flags, forms = {'base': dm0}, {'base': ('kw', wfe)}, []
+                    if arg == 'wfe':
+                        for lab, val in (('positional', ('pos', wfe)), ('python-int', ('kw', int(wfe))), ('numpy-bool', ('kw', np.bool_(wfe))),
+                                         ('omitted', ('omit', None)) if wfe else ('positional-int', ('pos', 0))):
+                            dms[f'wfe={lab}'] = dm0
+                            flags[f'wfe={lab}'] = val
+                            forms.append((f'wfe={lab}', False))
+                    else:
+                        ctor = {'Nout=tuple': dict(Nout=(Nout, Nout)), 'Nout=list': dict(Nout=[Nout, Nout]),      # numpy integers for Nout / Nact / sep are not ints for the constructor: raise (FORMS_NOTE)
+                                'sep=tuple': dict(sep=(sep, sep)), 'Nact=tuple': dict(Nact=(Nact, Nact)),
+                                'shift=list': dict(shift=list(shift)), 'shift=float64 ndarray': dict(shift=np.array(shift, dtype=float)),
+                                'shift=np.float64 scalars': dict(shift=tuple(np.float64(s) for s in shift)),
+                                'rot=list': dict(rot=[0, 0, 0]), 'upsample=python-float': dict(upsample=1.0), 'upsample=tuple': dict(upsample=(1, 1)),
+                                'ifn=F-order': dict(ifn=np.asfortranarray(ifn)), 'call=positional': None}
+                        for lab, kw in ctor.items():
+                            try:
+                                dms[lab] = new_dm(**kw) if kw is not None else DM(ifn, Nout, Nact, sep, shift)
+                            except Exception:
+                                ctx.skip(f'{row}: the DM constructor rejects {lab} (out of domain)')
+                                continue
+                            flags[lab] = ('kw', wfe)
+                            forms.append((lab, False))
+
+                    def fwd_of(t):
+                        dm, (how, val) = dms[t], flags[t]
+
+                        def fwd(x):
+                            dm.actuators[:] = np.real(x)
+                            return dm.render() if how == 'omit' else dm.render(val) if how == 'pos' else dm.render(wfe=val)
+                        return fwd
+
+                    def bwd_of(t):
+                        dm, (how, val) = dms[t], flags[t]
+
+                        def bwd(y):
+                            g = np.array(np.real(y), copy=True)       # render_backprop may use its argument as scratch (ASSUMPTIONS)
+                            return dm.render_backprop(g) if how == 'omit' else dm.render_backprop(g, val) if how == 'pos' else dm.render_backprop(g, wfe=val)
+                        return bwd
+                    if not forms:
+                        return None
+                    # a DM's backprop belongs to the render that preceded it (it reads the geometry render() recorded): forward first
+                    return _form_lin(row, fwd_of, bwd_of, ashape, oshape, forms, xkind='r', ykind='r', forward_first=True)
+                yield cls, desc, build
+
+
+def gen_forms_vjp(ctx, rng, which):
+    """Non-linear rows: the companion in another argument form, against the finite-difference-validated canonical gradient."""
+    from prysm import propagation as P
+    from prysm.x.optym.activation import GumbelSoftmax
+    row = {'intensity': 'Wavefront.intensity_backprop', 'phase': 'Wavefront.from_amp_and_phase_backprop_phase', 'gumbel': 'GumbelSoftmax.backprop'}[which]
+    R = row
+    n = ctx.share(ctx.pick(24, 600))
+    for i_local in range(n):
+        i = i_local * ctx.nshards + ctx.shard          # global enumeration index: the classes cycle across the shards
+        shape = _rand_shape(rng, ['sq', 'nonsq', 'line'][i % 3], 2, 9)
+        cls = 'form'
+        desc = {'shape': shape, 'variant': 'forms', 'sub': _subseed(rng)}
+        if which == 'gumbel':
+            tau = [1.0, 2.0, 0.5, 4.0][i % 4]
+            desc['tau'] = tau
+            seed = _subseed(rng)
+
+        def build(r_, shape=shape, i=i):
+            def tw(label, f, v, single=False):
+                return Twin(label, f, v, f'C06/{R}/form:{label}', RT_F32_NL if single else RT_DIR, 'form')
+            if which == 'intensity':
+                E = f32_exact(crandn(r_, shape) * float(r_.uniform(0.5, 5)))
+
+                def f(x):
+                    return np.asarray(P.Wavefront(x, 0.6, 0.1).intensity.data)
+
+                def vjp(x, g):
+                    return P.Wavefront(x, 0.6, 0.1).intensity_backprop(g).data
+
+                def ro(g):
+                    q = np.array(g, copy=True)
+                    q.setflags(write=False)
+                    return q
+                twins = [tw('intensity_bar=float32', f, lambda x, g: vjp(x, cast(g, 'f32')), True),
+                         tw('intensity_bar=read-only', f, lambda x, g: vjp(x, ro(g))),
+                         tw('intensity_bar=F-order', f, lambda x, g: vjp(x, np.asfortranarray(g))),
+                         tw('call=keyword', f, lambda x, g: P.Wavefront(x, 0.6, 0.1).intensity_backprop(intensity_bar=g).data),
+                         tw('field=complex64', f, lambda x, g: vjp(cast(x, 'c64'), g), True)]
+                return Vjp(f, vjp, E, gkind='r', xkind='c', h=1e-2 * float(np.max(np.abs(E))), twins=twins)
+            if which == 'phase':
+                amp = f32_exact(r_.uniform(0.1, 1.5, shape))
+                wvl = [0.5, 1.0, 0.75][i % 3]
+                ph = f32_exact(r_.standard_normal(shape) * 20)
+
+                def f(p):
+                    return P.Wavefront.from_amp_and_phase(amp, p, wvl, 0.1).data
+
+                def vjp(p, g, as_wf=True, **kw):
+                    w = P.Wavefront.from_amp_and_phase(kw.get('amp', amp), p, kw.get('wvl', wvl), kw.get('dx', 0.1))
+                    return w.from_amp_and_phase_backprop_phase(P.Wavefront(g, wvl, 0.1) if as_wf else g)
+                twins = [tw('wf_bar=ndarray', f, lambda p, g: vjp(p, g, as_wf=False)),
+                         tw('wf_bar=complex64', f, lambda p, g: vjp(p, cast(g, 'c64')), True),
+                         tw('amp=float32', f, lambda p, g: vjp(p, g, amp=amp.astype(np.float32)), True),
+                         tw('amp=read-only', f, lambda p, g: vjp(p, g, amp=np.asfortranarray(amp))),
+                         tw('wavelength=numpy-float64', f, lambda p, g: vjp(p, g, wvl=np.float64(wvl))),
+                         tw('wavelength=0d-array', f, lambda p, g: vjp(p, g, wvl=np.array(wvl))),
+                         tw('dx=numpy-float64', f, lambda p, g: vjp(p, g, dx=np.float64(0.1))),
+                         tw('phase=float32', f, lambda p, g: vjp(cast(p, 'f32'), g), True)]
+                if float(wvl) == int(wvl):
+                    twins.append(tw('wavelength=python-int', f, lambda p, g: vjp(p, g, wvl=int(wvl))))
+                return Vjp(f, vjp, ph, gkind='c', xkind='r', h=1e-2 * wvl * 1e3 / (2 * np.pi), twins=twins)
+            K = int(r_.integers(2, 6))
+            x0 = r_.standard_normal(shape + (K,)) * 0.8
+
+            def node(t):
+                nd = GumbelSoftmax(t, 1e-12) if isinstance(t, tuple) is False and t is not None else GumbelSoftmax(tau=tau, eps=1e-12)
+                nd.rng = np.random.default_rng(seed)
+                return nd
+
+            def mk(tform):
+                def f(x):
+                    return node(tform).forward(x)
+
+                def vjp(x, g):
+                    nd = node(tform)
+                    nd.forward(x)
+                    return nd.backprop(g)
+                return f, vjp
+            f, vjp = mk(None)
+            twins = []
+            for label, t in (('tau=numpy-float64', np.float64(tau)), ('tau=0d-array', np.array(tau)), ('tau=numpy-float32', np.float32(tau))) + \
+                    ((('tau=python-int', int(tau)), ('tau=numpy-int64', np.int64(int(tau)))) if float(tau) == int(tau) else ()):
+                ft, vt = mk(t)
+                twins.append(tw(label, ft, vt))
+            return Vjp(f, vjp, x0, gkind='r', xkind='r', h=1e-3, twins=twins)
+        yield cls, desc, build
+
+
+def gen_forms_cost(ctx, rng, name):
+    """Cost functions with the data in every integer / float dtype that holds it exactly (detector counts)."""
+    from prysm.x.optym import cost
+    fn = getattr(cost, name)
+    n = ctx.share(ctx.pick(18, 400))
+    for i_local in range(n):
+        i = i_local * ctx.nshards + ctx.shard          # global enumeration index: the classes cycle across the shards
+        mk = ['unmasked', 'masked'][i % 2] if name != 'bias_and_gain_invariant_error' else 'masked'
+        shape = [(5, 6), (12,), (4, 4), (3, 7)][i % 4] if name != 'bias_and_gain_invariant_error' else [(5, 6), (4, 4), (3, 7)][i % 3]
+        cls = 'form:D'
+        desc = {'shape': shape, 'mask': mk, 'variant': 'forms', 'sub': _subseed(rng)}
+
+        def build(r_, shape=shape, mk=mk):
+            mask = None
+            if mk == 'masked':
+                mask = r_.uniform(0, 1, shape) > 0.3
+                if mask.sum() < 3:
+                    mask[...] = True
+            if name == 'negative_loglikelihood':
+                M = r_.uniform(0.05, 0.95, shape)
+                D = (r_.uniform(0, 1, shape) > 0.5).astype(np.float64)
+                h = 5e-4
+                dts = ['int64', 'int32', 'int8', 'float32']       # unsigned targets: out of domain (FORMS_NOTE)
+            else:
+                M = r_.uniform(0.1, 1.1, shape) * 40
+                D = np.round(r_.uniform(0, 60, shape))
+                h = 3e-3 * float(np.max(M))
+                dts = ['int64', 'int32', 'int16', 'uint16', 'uint8', 'float32']
+            twins = []
+            for dt in dts:
+                Dt = D.astype(dt)
+
+                def ft(m, Dt=Dt):
+                    return fn(m, Dt, mask)
+                twins.append(Twin(f'D={dt}', ft, None, f'C06/{name}/form:D={dt}', RT_DIR, 'form'))
+            ro = D.copy()
+            ro.setflags(write=False)
+            twins.append(Twin('D=read-only', lambda m: fn(m, ro, mask), None, f'C06/{name}/form:D=read-only', RT_DIR, 'form'))
+            if name == 'mean_square_error':
+                twins.append(Twin('call=keywords', lambda m: fn(M=m, D=D, mask=mask), None, f'C06/{name}/form:call=keywords', RT_DIR, 'form'))
+                if mask is None:
+                    twins.append(Twin('mask=omitted', lambda m: (fn(m, D, np.ones(shape, dtype=bool)), fn(m, D))[1], None,
+                                      f'C06/{name}/form:mask=omitted', RT_DIR, 'form'))
+            if name == 'negative_loglikelihood':
+                twins.append(Twin('call=keywords', lambda m: fn(y=m, yhat=D, mask=mask), None, f'C06/{name}/form:call=keywords', RT_DIR, 'form'))
+            return Cost(lambda m: fn(m, D, mask), M, h, twins=twins)
+        yield cls, desc, build
+        # narrow integer data as the *primary* case: whatever the routine makes of such data (numpy's narrow-integer arithmetic may
+        # make it another cost than for float data: the twins above are then skipped and counted), the gradient it returns must be
+        # the gradient of the cost it returns
+        if name != 'negative_loglikelihood':
+            dt = ['uint8', 'uint16', 'int16', 'int8'][i % 4]
+            desc2 = {'shape': shape, 'mask': mk, 'D_dtype': dt, 'variant': 'forms', 'sub': _subseed(rng)}
+
+            def build2(r_, shape=shape, mk=mk, dt=dt):
+                mask = None
+                if mk == 'masked':
+                    mask = r_.uniform(0, 1, shape) > 0.3
+                    if mask.sum() < 3:
+                        mask[...] = True
+                M = r_.uniform(0.1, 1.1, shape) * 40
+                D = np.round(r_.uniform(0, 60, shape)).astype(dt)
+                return Cost(lambda m: fn(m, D, mask), M, 3e-3 * float(np.max(M)))
+            yield f'form:D={dt}/gradient-of-the-returned-cost', desc2, build2
+
+
+def gen_forms_activation(ctx, rng, name):
+    """Activation nodes on integer-valued and 0-d inputs."""
+    from prysm.x.optym import activation
+    klass = getattr(activation, name)
+    R = name + '.backprop'
+    n = ctx.share(ctx.pick(8, 200))
+    for i_local in range(n):
+        i = i_local * ctx.nshards + ctx.shard          # global enumeration index: the classes cycle across the shards
+        a = [1, 0.5, 2.0][i % 3]
+        x0 = [0, 0.25, -1.0][(i // 3) % 3]
+        xf = ['int64', 'int32', '0d-float64', 'numpy-float64-scalar', 'int16'][i % 5]     # unsigned inputs raise OverflowError for some (a, x0): out of domain
+        if name == 'Arctan' and xf.startswith(('int', 'uint')):
+            xf = '0d-float64'        # Arctan.backprop scales an integer array in place by a float: raises today (FORMS_NOTE)
+        cls = f'form:x={xf}'
+        desc = {'a': a, 'x0': x0, 'x_form': xf, 'variant': 'forms', 'sub': _subseed(rng)}
+
+        def build(r_, a=a, x0=x0, xf=xf):
+            node = klass(a=a, x0=x0, y0=0.5)
+            if xf.startswith(('int', 'uint')):
+                lo = -5
+                x = r_.integers(lo, 6, (7,)).astype(xf)
+            elif xf == '0d-float64':
+                x = np.array(float(r_.uniform(-3, 3)))
+            else:
+                x = np.float64(r_.uniform(-3, 3))
+            return Pointwise(node, x, 3e-3 / a, key=f'C06/{R}/form:x={xf}', mon='form', dmax=abs(a))
+        yield cls, desc, build
+
+
+def gen_foreign(ctx, rng):
+    """Class F: the other public consumers of the helpers the matrix-DFT companions share (fftrange, forward_ft_unit, make_xy_grid,
+    pad2d, the shared executors) run first with hostile arguments (vp.propforms.foreign_traffic); then the mdft / fixed-sampling /
+    mask-and-back adjoints are judged on the same axis lengths."""
+    from prysm.fttools import mdft
+    from prysm import propagation as P
+    pf = _pf()
+    n = ctx.share(ctx.pick(8, 120))
+    for i_local in range(n):
+        i = i_local * ctx.nshards + ctx.shard          # global enumeration index: the classes cycle across the shards
+        sa = _rand_shape(rng, ['sq', 'nonsq'][i % 2], 3, 10)
+        sb = _rand_shape(rng, ['sq', 'nonsq'][(i // 2) % 2], 3, 10)
+        which = ['dft2', 'idft2', 'focus', 'unfocus', 'tfb', 'dm'][i % 6]
+        Q = _Q_of(rng, ['scalar', 'pair'][i % 2])
+        shift = _shift_of(rng, ['nz', '0'][(i // 5) % 2])
+        dx, wvl, efl, fdx = _geom_f32(rng, sa)
+        cls = f'after-foreign-traffic/{which}'
+        desc = {'in': sa, 'out': sb, 'Q': Q, 'shift': shift, 'which': which, 'variant': 'foreign', 'sub': _subseed(rng)}
+
+        def build(r_, sa=sa, sb=sb, which=which, Q=Q, shift=shift, dx=dx, wvl=wvl, efl=efl, fdx=fdx, desc=desc, i=i):
+            if which == 'dm':
+                # the DM builds its sub-sample shift ramps from forward_ft_unit(1, n, shift=False)
+                from prysm.x.dm import DM
+                N = int(r_.integers(12, 18)) * 2
+                pf.foreign_traffic(ctx, r_, [N, N + 6], dxs=(1.0, dx), note='foreign:traffic', heavy=False, prefix='C06', desc=desc)
+                wfe = bool(i % 2)
+                with warnings.catch_warnings():
+                    warnings.simplefilter('ignore')
+                    dm = DM(_dm_ifn(N, 1.5), Nout=N + [0, 6][i % 2], Nact=4, sep=3, shift=(float(np.round(r_.uniform(0.3, 2.5), 2)), -0.75))
+                oshape = dm.render(wfe=wfe).shape
+
+                def fwd(x):
+                    dm.actuators[:] = np.real(x)
+                    return dm.render(wfe=wfe)
+                c = Lin(fwd, lambda y: dm.render_backprop(np.array(np.real(y), copy=True), wfe=wfe), dm.actuators.shape, oshape, xkind='r', ykind='r')
+                c.plan = [('f', 0, 'base'), ('b', 0, 'base'), ('f', 1, 'base'), ('b', 1, 'base')]
+                c.tags = {'base': Tag('base', mon='foreign')}
+                # a DM built before the foreign traffic of an unrelated size must agree with this one: fresh-object comparison
+                return c
+            pf.foreign_traffic(ctx, r_, list(sa) + list(sb), dxs=(dx, fdx), note='foreign:traffic', heavy=False, prefix='C06', desc=desc)
+            if which in ('dft2', 'idft2'):
+                f, b = getattr(mdft, which), getattr(mdft, which + '_backprop')
+                c = Lin(lambda x: f(x, Q, sb, shift), lambda y: b(y, Q, sa, shift), sa, sb)
+            elif which == 'focus':
+                ps = (float(shift[0]) * fdx, float(shift[1]) * fdx)
+                c = Lin(lambda x: P.focus_fixed_sampling(x, dx, efl, wvl, fdx, sb, shift=ps),
+                        lambda y: P.focus_fixed_sampling_backprop(y, dx, efl, wvl, fdx, sa, shift=ps), sa, sb)
+            elif which == 'unfocus':
+                ps = (float(shift[0]) * dx, float(shift[1]) * dx)
+                c = Lin(lambda x: P.unfocus_fixed_sampling(x, fdx, efl, wvl, dx, sb, shift=ps),
+                        lambda y: P.unfocus_fixed_sampling_backprop(y, fdx, efl, wvl, dx, sa, shift=ps), sa, sb)
+            else:
+                m = r_.uniform(0, 1, sb) * np.exp(1j * r_.uniform(-3, 3, sb))
+                ps = (float(shift[0]) * fdx, float(shift[1]) * fdx)
+                c = Lin(lambda x: P.to_fpm_and_back(x, dx, efl, wvl, m, fdx, shift=ps),
+                        lambda y: P.to_fpm_and_back_backprop(y, dx, wvl, efl, m, fdx, shift=ps), sa, sa)
+            c.tags = {'base': Tag('base', mon='foreign')}
+            return c
+        yield cls, desc, build
+
+
 # (row name = companion routine, monitor kinds, generator)
 LINM = ('adjoint', 'history', 'layout', 'precision')
 VJPM = ('dirderiv', 'history', 'layout', 'precision')
@@ -1903,10 +2775,32 @@ TABLE = [
     ('SpatialGradient2D.backprop_x', LINM + ('fresh-object',), lambda c, r: gen_spatial(c, r, 'x')),
     ('SpatialGradient2D.backprop_y', LINM + ('fresh-object',), lambda c, r: gen_spatial(c, r, 'y')),
     ('float32-config', ('adjoint',), gen_f32),
+    # hardening pass 2: argument forms (class E) and foreign traffic (class F); same row names => same violation-key prefixes
+    ('mdft.dft2_backprop', ('form',), lambda c, r: gen_forms_mdft(c, r, 'dft2')),
+    ('mdft.idft2_backprop', ('form',), lambda c, r: gen_forms_mdft(c, r, 'idft2')),
+    ('focus_fixed_sampling_backprop', ('form',), lambda c, r: gen_forms_ffs(c, r, 'focus', 'function')),
+    ('Wavefront.focus_fixed_sampling_backprop', ('form',), lambda c, r: gen_forms_ffs(c, r, 'focus', 'Wavefront')),
+    ('unfocus_fixed_sampling_backprop', ('form',), lambda c, r: gen_forms_ffs(c, r, 'unfocus', 'function')),
+    ('to_fpm_and_back_backprop', ('form',), lambda c, r: gen_forms_tfb(c, r, 'function')),
+    ('Wavefront.to_fpm_and_back_backprop', ('form',), lambda c, r: gen_forms_tfb(c, r, 'Wavefront')),
+    ('Wavefront.babinet_backprop', ('form',), gen_forms_babinet),
+    ('sum_of_2d_modes_backprop', ('form',), gen_forms_modes),
+    ('DM.render_backprop', ('form',), gen_forms_dm),
+    ('Wavefront.intensity_backprop', ('form',), lambda c, r: gen_forms_vjp(c, r, 'intensity')),
+    ('Wavefront.from_amp_and_phase_backprop_phase', ('form',), lambda c, r: gen_forms_vjp(c, r, 'phase')),
+    ('GumbelSoftmax.backprop', ('form',), lambda c, r: gen_forms_vjp(c, r, 'gumbel')),
+    ('mean_square_error', ('form',), lambda c, r: gen_forms_cost(c, r, 'mean_square_error')),
+    ('negative_loglikelihood', ('form',), lambda c, r: gen_forms_cost(c, r, 'negative_loglikelihood')),
+    ('bias_and_gain_invariant_error', ('form',), lambda c, r: gen_forms_cost(c, r, 'bias_and_gain_invariant_error')),
+    ('Tanh.backprop', ('form',), lambda c, r: gen_forms_activation(c, r, 'Tanh')),
+    ('Arctan.backprop', ('form',), lambda c, r: gen_forms_activation(c, r, 'Arctan')),
+    ('Softplus.backprop', ('form',), lambda c, r: gen_forms_activation(c, r, 'Softplus')),
+    ('Sigmoid.backprop', ('form',), lambda c, r: gen_forms_activation(c, r, 'Sigmoid')),
+    ('foreign-traffic', ('foreign',), gen_foreign),
 ]
 KEY_ROUTINE = {'Wavefront.focus_fixed_sampling_backprop': 'focus_fixed_sampling_backprop',
                'Wavefront.to_fpm_and_back_backprop': 'to_fpm_and_back_backprop'}
-REQUIRED += [f'{m}:{row}' for row, mons, _ in TABLE for m in mons]
+REQUIRED += [f'{m}:{row}' for row, mons, _ in TABLE for m in mons] + ['foreign:traffic']
 
 
 # ============================================================================================ entry points
@@ -1921,7 +2815,7 @@ def run(ctx, only_row=None):
         for row, mons, gen in TABLE:
             if only_row is not None and row not in only_row:
                 continue
-            rng = ctx.rng('c06', row)
+            rng = ctx.rng('c06', row) if mons[0] not in ('form', 'foreign') else ctx.rng('c06', row, mons[0])
             for cls, desc, build in gen(ctx, rng):
                 h.run_case(row, cls, desc, build)
     finally:
